@@ -3,6 +3,8 @@
 package consensus
 
 import (
+	"sync"
+
 	"github.com/lianxiangcloud/linkchain/libs/p2p"
 	"github.com/lianxiangcloud/linkchain/types"
 )
@@ -36,4 +38,20 @@ func (n *VerifNode) VerifStepPeerQueue() ConsensusMessage {
 	default:
 		return nil
 	}
+}
+
+// VerifGossip runs the three per-peer routines AddPeer starts for a peer (gossipDataRoutine, gossipVotesRoutine,
+// queryMaj23Routine - the real ones, as goroutines, exactly as in production: a panic in them is NOT recovered and ends
+// the process) until the peer reports !IsRunning(), which the harness peer does after a bounded number of polls.
+func (conR *ConsensusReactor) VerifGossip(peer p2p.Peer) {
+	ps := peer.Get(types.PeerStateKey).(*PeerState)
+	var wg sync.WaitGroup
+	for _, f := range []func(p2p.Peer, *PeerState){conR.gossipDataRoutine, conR.gossipVotesRoutine, conR.queryMaj23Routine} {
+		wg.Add(1)
+		go func(f func(p2p.Peer, *PeerState)) {
+			defer wg.Done()
+			f(peer, ps)
+		}(f)
+	}
+	wg.Wait()
 }
